@@ -24,9 +24,12 @@ import time
 ROOT = os.path.dirname(os.path.dirname(os.path.abspath(__file__)))
 CACHE = os.path.join(ROOT, ".cache")
 COQ = os.path.join(ROOT, "coq")
-TARGET = os.path.join(CACHE, "target")
+# MJ_REPO=<worktree> lets a developer run the checks against a scratch worktree of /repo
+# (own cargo target dir, own copy of the harness manifest).  Registered commands never set it.
+REPO = os.environ.get("MJ_REPO", "/repo")
+_TAG = "" if REPO == "/repo" else "-" + hashlib.sha256(REPO.encode()).hexdigest()[:8]
+TARGET = os.path.join(CACHE, "target" + _TAG)
 EXTRACT = os.path.join(CACHE, "extract")
-REPO = "/repo"
 HOOK_FEATURE = "verif_hooks"
 
 ENV = dict(os.environ)
@@ -125,34 +128,65 @@ def coq_make(targets=None, timeout=3000):
         return rc == 0, o + e
 
 
-def build_models():
-    """Builds the model files + runners + extraction + OCaml driver.  Model files contain no
-    proofs, so this keeps working when a proof is broken.  Returns (ok, log)."""
-    ok, out = coq_make(["theories/Extract/Extract.vo"])
+def runner_module(prop_id):
+    return "theories/%s/Runner" % prop_id
+
+
+def build_models(prop_id):
+    """Builds theories/<ID>/Runner.v (which imports only model/spec files - no proofs - so it keeps
+    working when a proof is broken), extracts `runners` to OCaml and links it with
+    extract/driver.ml into .cache/extract/<ID>/mjmodel.  Returns (ok, log)."""
+    ok, out = coq_make([runner_module(prop_id) + ".vo"])
     if not ok:
         return False, out
-    with Lock("extract"):
-        os.makedirs(EXTRACT, exist_ok=True)
-        src = [os.path.join(COQ, "mjmodel_ex.ml"), os.path.join(COQ, "mjmodel_ex.mli"),
-               os.path.join(ROOT, "extract", "driver.ml")]
-        stamp = hashlib.sha256(b"".join(open(s, "rb").read() for s in src)).hexdigest()
-        sp = os.path.join(EXTRACT, "stamp")
-        binp = os.path.join(EXTRACT, "mjmodel")
-        if not (os.path.exists(binp) and os.path.exists(sp) and open(sp).read() == stamp):
-            for s in src:
-                sh(["cp", s, EXTRACT])
-            rc, o, e = sh("ocamlfind ocamlopt -package zarith -linkpkg -O2 -w -a mjmodel_ex.mli mjmodel_ex.ml driver.ml -o mjmodel",
-                          cwd=EXTRACT, timeout=900)
-            if rc != 0:
-                return False, o + e
-            open(sp, "w").write(stamp)
+    d = os.path.join(EXTRACT, prop_id)
+    with Lock("extract-" + prop_id):
+        os.makedirs(d, exist_ok=True)
+        vo = os.path.join(COQ, runner_module(prop_id) + ".vo")
+        drv = os.path.join(ROOT, "extract", "driver.ml")
+        stamp = hashlib.sha256(open(vo, "rb").read() + open(drv, "rb").read()).hexdigest()
+        sp = os.path.join(d, "stamp")
+        binp = os.path.join(d, "mjmodel")
+        if os.path.exists(binp) and os.path.exists(sp) and open(sp).read() == stamp:
+            return True, out
+        ex = ("(* generated by tools/vlib.py.  Extraction directives: ExtrOcamlBasic + ExtrOcamlString only. *)\n"
+              "From Coq Require Import Extraction ExtrOcamlBasic ExtrOcamlString.\n"
+              "From MJ Require %s.Runner.\nExtraction Language OCaml.\n"
+              "Extraction \"mjmodel_ex.ml\" %s.Runner.runners.\n") % (prop_id, prop_id)
+        open(os.path.join(d, "Extract_%s.v" % prop_id), "w").write(ex)
+        rc, o, e = sh(["coqc", "-noglob", "-Q", os.path.join(COQ, "theories"), "MJ", "Extract_%s.v" % prop_id], cwd=d, timeout=900)
+        if rc != 0:
+            return False, o + e
+        sh(["cp", drv, d])
+        rc, o, e = sh("ocamlfind ocamlopt -package zarith -linkpkg -O2 -w -a mjmodel_ex.mli mjmodel_ex.ml driver.ml -o mjmodel",
+                      cwd=d, timeout=900)
+        if rc != 0:
+            return False, o + e
+        open(sp, "w").write(stamp)
     return True, out
+
+
+def harness_dir():
+    """The harness crate; with MJ_REPO set, a shadow copy whose path dependencies point there."""
+    h = os.path.join(ROOT, "harness")
+    if REPO == "/repo":
+        return h
+    sh_dir = os.path.join(CACHE, "harness" + _TAG)
+    os.makedirs(sh_dir, exist_ok=True)
+    toml = open(os.path.join(h, "Cargo.toml")).read().replace('"/repo/', '"%s/' % REPO)
+    tp = os.path.join(sh_dir, "Cargo.toml")
+    if not os.path.exists(tp) or open(tp).read() != toml:
+        open(tp, "w").write(toml)
+    link = os.path.join(sh_dir, "src")
+    if not os.path.islink(link):
+        os.symlink(os.path.join(h, "src"), link)
+    return sh_dir
 
 
 def cargo_build(bins, release=False, features=(), timeout=3000):
     """Builds harness bins against the current /repo tree.  Returns (ok, log)."""
-    h = os.path.join(ROOT, "harness")
-    with Lock("cargo"):
+    h = harness_dir()
+    with Lock("cargo" + _TAG):
         lock_src = os.path.join(REPO, "Cargo.lock")
         lock_dst = os.path.join(h, "Cargo.lock")
         if not os.path.exists(lock_dst):
@@ -220,15 +254,15 @@ def run_impl(binname, cases, release=False, **kw):
     return run_lines([bin_path(binname, release)], cases, **kw)
 
 
-def run_model(runner, cases, **kw):
-    return run_lines([os.path.join(EXTRACT, "mjmodel"), runner], cases, **kw)
+def run_model(prop_id, runner, cases, **kw):
+    return run_lines([os.path.join(EXTRACT, prop_id, "mjmodel"), runner], cases, **kw)
 
 
 def coq_term(c):
     return "[" + "; ".join(("(%d)" % x) if x < 0 else str(x) for x in c) + "]"
 
 
-def kernel_eval(expr_prefix, cases, name, imports="Common.Base Extract.Runners", timeout=600):
+def kernel_eval(expr_prefix, cases, name, imports="Common.Base", timeout=600):
     """Evaluates `map <expr_prefix> cases` inside Coq with vm_compute.  Returns list of int lists,
     or None when coqc failed."""
     d = os.path.join(CACHE, "cases")
@@ -415,8 +449,9 @@ class Check:
         self.violations = []
         self.known_hits = {}
         self.notes = {}
-        kf = os.path.join(ROOT, "known_findings.json")
-        self.known = [k for k in json.load(open(kf)).get("known", []) if k.get("property") == prop_id] if os.path.exists(kf) else []
+        kf = os.path.join(ROOT, "known", prop_id + ".json")
+        self.known = json.load(open(kf)).get("known", []) if os.path.exists(kf) else []
+        self.env_tag = _TAG
 
     @property
     def thorough(self):
@@ -492,7 +527,7 @@ def corr(chk, name, binname, runner, cases, spec_runner=None, profiles=(False, T
     """Standard correspondence: impl (debug + release) vs extracted model vs (sample) kernel.
     Returns dict with per-case outputs; registers nothing by itself except crashes-as-mismatch info."""
     res = {"cases": cases}
-    model = run_model(runner, cases)
+    model = run_model(chk.id, runner, cases)
     res["model"] = model
     impl = {}
     for rel in profiles:
@@ -510,7 +545,7 @@ def corr(chk, name, binname, runner, cases, spec_runner=None, profiles=(False, T
         idx = list(range(0, len(cases), step))[:kernel_sample]
         # prefer cheap-to-print cases: skip ones with huge numbers
         sample = [cases[i] for i in idx]
-        kern = kernel_eval(name, sample, "k_" + chk.id + "_" + runner.replace("-", "_"))
+        kern = kernel_eval(name, sample, "k_" + chk.id + "_" + runner.replace("-", "_"), imports="Common.Base %s.Runner" % chk.id)
         if kern is None:
             res["kernel_ok"] = False
             res["kernel_checked"] = 0
